@@ -2,7 +2,7 @@
 # Re-run, for every seeded change, the first check named in its meta.json "caught_by" against a scratch worktree
 # built from seeded/<id>/patch.diff (removed again afterwards).  Usage: tools/regress_seeded.sh [id ...]
 # Output: one line per change; rc=1 with VIOLATION lines is the expected result.
-cd /verif
+cd "$(dirname "$0")/.."; V=$(pwd)
 ids="$@"; [ -z "$ids" ] && ids=$(ls seeded)
 base=${HSVERIF_REGRESS_DIR:-/var/tmp}
 for n in $ids; do
@@ -11,7 +11,7 @@ for n in $ids; do
   [ -z "$chk" ] && { echo "$n: no check claimed (documented non-detection)"; continue; }
   wt=$base/hsreg_$n
   git -C /repo worktree add --detach -q $wt >/dev/null 2>&1 || { echo "$n: cannot create worktree"; continue; }
-  if git -C $wt apply /verif/$d/patch.diff 2>/dev/null; then
+  if git -C $wt apply $V/$d/patch.diff 2>/dev/null; then
     out=$(HSVERIF_REPO=$wt ./check $chk --tier quick 2>&1); rc=$?
     echo "$n check=$chk rc=$rc viol=$(echo "$out" | grep -c '^VIOLATION')"
   else
